@@ -11,5 +11,14 @@ def run(ctx):
                    "toggled through the instance (obj.blk.constraint_mode / obj.sub.blk.constraint_mode). The tie compares the "
                    "multiset of hard terms of every call with the model's enabled blocks of that instance.",
         assumptions=["the procedural per-instance path obj.block.constraint_mode(); toggling inside a randomize_with block is "
-                     "not generated", "single inheritance level (most-derived selection is exercised by C06's harness)"],
+                     "not generated", "one level of inheritance (second stream)"],
         ninst=3, n_quick=40, n_thorough=1500)
+    tree_common.extra_stream(
+        ctx, "C07", 2 | 8,
+        "the constraint blocks enforced in the call are not the most-derived, enabled blocks of this instance (class hierarchies with "
+        "overridden block names; instances held in lists)",
+        tag="c07h", key="hierarchy_and_list_stream",
+        rule="30% of the classes inherit fields and blocks from a decorated base whose blocks are overridden by name in the derived "
+             "class (the base's other blocks stay in force); 1-2 lists of 2-3 objects whose blocks are toggled per element "
+             "(obj.l[i].blk.constraint_mode)",
+        olists=True, hooks=True)
